@@ -38,8 +38,75 @@ def corpus_cases(ctx, chunkings=1):
     return res
 
 
+def known_crash(case, err):
+    """which listed C01 finding (if any) explains a sanitizer report on this S-connp case"""
+    for k in vf.known_for("C01"):
+        sig = k.get("signature", {})
+        if "stack_contains" not in sig and "stack_contains_any" not in sig:
+            continue
+        if sig.get("report") and sig["report"] not in err:
+            continue
+        if sig.get("sanitizer") == "LeakSanitizer" and "LeakSanitizer" not in err:
+            continue
+        if not all(x in err for x in sig.get("stack_contains", [])):
+            continue
+        if sig.get("stack_contains_any") and not any(x in err for x in sig["stack_contains_any"]):
+            continue
+        if "script_action" in sig:
+            script = case.split("\t")[2]
+            if not any(e.endswith(":%d" % sig["script_action"]) for e in script.split(";")):
+                continue
+        return k
+    return None
+
+
+def drop_known_crashes(ctx, cases, max_drops=2000):
+    """run the library alone first; cases whose sanitizer report matches a LISTED C01 finding are removed (and noted),
+    so that one known defect does not hide the rest of the batch. Returns the surviving cases (order kept)."""
+    import concurrent.futures as cf
+    exe = vf.impl_driver(ctx, "san")
+    n = len(cases)
+    if n == 0:
+        return []
+    shards = min(vf.NCPU, max(1, n // 300))
+    step = (n + shards - 1) // shards
+    parts = [cases[i:i + step] for i in range(0, n, step)]
+
+    def work(k, part):
+        keep, dropped, pos, budget = list(part), {}, 0, max_drops
+        while pos < len(keep) and budget > 0:
+            lines, rc, err = vf.run_driver(ctx, exe, keep[pos:], "pre-%d" % k)
+            if rc == 0:
+                break
+            idx = pos + len(lines)
+            if idx >= len(keep):
+                break
+            kf = known_crash(keep[idx], err)
+            if kf is None:
+                break                      # an unlisted crash: leave it for the real run to report
+            dropped.setdefault(kf["id"], []).append(keep[idx])
+            del keep[idx]
+            pos = idx
+            budget -= 1
+        return keep, dropped
+    with cf.ThreadPoolExecutor(max_workers=shards) as ex:
+        res = list(ex.map(lambda kp: work(*kp), enumerate(parts)))
+    out, dropped = [], {}
+    for keep, d in res:
+        out += keep
+        for k, v in d.items():
+            dropped.setdefault(k, []).extend(v)
+    if dropped:
+        dk = ctx.cov.setdefault("known_crash_cases_dropped", {})
+        for k, v in dropped.items():
+            dk[k] = dk.get(k, 0) + len(v)
+        ctx.__dict__.setdefault("dropped_known", {}).update(dropped)
+    return out
+
+
 def correspond_and_oracle(ctx, cases, tag="S-connp"):
     """returns (impl outputs, model outputs, oracle verdict dicts (on the implementation), traces, crash)"""
+    cases[:] = drop_known_crashes(ctx, cases)
     impl, model, crash = vf.correspond(ctx, tag, cases)
     traces = list(getattr(ctx, "last_traces", [0] * len(impl)))
     n = min(len(impl), len(cases))
